@@ -504,6 +504,18 @@ func (k msgServer) UpdateConsumer(goCtx context.Context, msg *types.MsgUpdateCon
 		}
 
 		if k.IsConsumerPrelaunched(ctx, consumerId) {
+			if msg.InitializationParameters == nil {
+				// the stored initialization parameters are kept, so their initial height
+				// has to match the revision of the new chain id
+				initializationParameters, err := k.Keeper.GetConsumerInitializationParameters(ctx, consumerId)
+				if err != nil {
+					return &resp, errorsmod.Wrapf(ccvtypes.ErrInvalidConsumerState,
+						"cannot get consumer initialization parameters: %s", err.Error())
+				}
+				if err = types.ValidateInitialHeight(initializationParameters.InitialHeight, msg.NewChainId); err != nil {
+					return &resp, errorsmod.Wrapf(types.ErrInvalidMsgUpdateConsumer, "invalid new chain id: %s", err.Error())
+				}
+			}
 			chainId = msg.NewChainId
 			k.SetConsumerChainId(ctx, consumerId, chainId)
 		} else {
